@@ -118,9 +118,16 @@ def strategy_(draw, tier):
     for i in range(draw(st.integers(3, 9))):
         tdir, base = draw(st.sampled_from(tds))
         mut = draw(st.sampled_from([None, None, None, "case", "extra", "prefix", "drop", "change",
-                                    "random"]))
-        name = draw(gen.names(long_ok=False)) if mut == "random" else draw(instance(pieces, mut))
+                                    "random", "as_parent"]))
+        name = draw(gen.names(long_ok=False)) if mut == "random" else draw(
+            instance(pieces, None if mut == "as_parent" else mut))
         d = draw(st.sampled_from(gen.orig_dirs(tw, base)))
+        if mut == "as_parent":
+            # the matching name is a DIRECTORY on the way to the entry; the entry's own base name
+            # is something else ('*' and '?' of fnmatch also match '/', so a matcher applied to
+            # more than the base name would swallow the rest of the path)
+            d = d + "/" + name
+            name = draw(st.sampled_from(["inner", "summary.txt", "x"]))
         ents.append(dict(tdir=tdir, base=base, orig=d + "/" + name,
                          kind=draw(st.sampled_from(["file", "tree", "link"])), mut=mut))
     shape = "".join({"lit": "l", "star": "*", "q": "?", "set": "s", "range": "r"}[p[0]] for p in pieces)
